@@ -7,7 +7,7 @@ the same candles, readings and helper readings.
 """
 from __future__ import annotations
 
-from .. import planlib, world
+from .. import planlib, simclock, world
 from ..catalogue import build, mk_candles, sample_spec, spec_label
 from ..core import Discard, LibError, Violation, filled_size, run_property
 from ..relational import any_reading, batch_twin, compare_candles
@@ -102,6 +102,12 @@ def _execute(trace):
         for i, op in enumerate(trace["ops"]):
             run.op_index = i
             kind = op["op"]
+            live_rows = (op.get("preload") if kind == "new" else op.get("candles") if kind == "append" else None) or []
+            if live_rows:
+                # the simulated wall clock: the live subject handles every arrival one second after its newest
+                # candle; the batch twin is built long after the fact (simclock.DEFAULT_NOW).  The library must
+                # not care (at the pinned commit it never reads the clock).
+                simclock.set_now(live_rows[-1][0] + 1)
             try:
                 if kind == "new":
                     rows = op.get("preload") or []
@@ -128,11 +134,15 @@ def _execute(trace):
                     if not calculated:
                         run.call(filled_size(delivered, tfs) * 2, subject.calculate)
                         calculated = True
+                    live_now = simclock.NOW
+                    simclock.set_now(simclock.DEFAULT_NOW)
                     try:
                         twin = batch_twin(spec, delivered)
                     except Exception as exc:  # noqa: BLE001
                         raise Violation("only-batch-raises", label, type(exc).__name__,
                                         {"error": repr(exc)})
+                    finally:
+                        simclock.set_now(live_now)
                     d = compare_candles(subject.candles, twin.candles, twin.name)
                     if d is not None:
                         j, field, g, w = d
